@@ -137,6 +137,12 @@ impl BisyncEngine {
             (stats, errors)
         };
 
+        // A path that is a directory on one side and a file on the other is left alone by the
+        // classifier, so the two trees cannot become equal there: that is an error to report, not
+        // a clean run
+        let mut errors = errors;
+        errors.extend(kind_conflicts(&source_files, &dest_files));
+
         let duration_ms = start.elapsed().as_millis();
         let final_stats = BisyncStats {
             duration_ms,
@@ -155,6 +161,29 @@ impl Default for BisyncEngine {
     fn default() -> Self {
         Self::new()
     }
+}
+
+/// Paths that are a directory on one side and a file on the other
+fn kind_conflicts(
+    source_files: &[crate::sync::scanner::FileEntry],
+    dest_files: &[crate::sync::scanner::FileEntry],
+) -> Vec<String> {
+    let dest_kinds: std::collections::HashMap<&Path, bool> = dest_files
+        .iter()
+        .map(|e| (e.relative_path.as_path(), e.is_dir))
+        .collect();
+    let mut conflicts: Vec<String> = source_files
+        .iter()
+        .filter(|s| dest_kinds.get(s.relative_path.as_path()).is_some_and(|d| *d != s.is_dir))
+        .map(|s| {
+            format!(
+                "{}: a directory on one side and a file on the other, not synchronised",
+                s.relative_path.display()
+            )
+        })
+        .collect();
+    conflicts.sort();
+    conflicts
 }
 
 /// Check if deletion limit would be exceeded
